@@ -40,6 +40,7 @@ type clientSpec struct {
 	Base64  string      `json:"b64"`   // connect_get: "", "1", "0", "bad"
 	NoFlush bool        `json:"noflush"`
 	Rej     string      `json:"rej"` // rejection class the generator aimed at ("" = none)
+	GetDelta string     `json:"getdelta"` // C19: max GET URL length relative to the exact URL length: "", m1, 0, p1
 }
 
 type endSpec struct {
@@ -125,6 +126,7 @@ type dispatchObs struct {
 	Same    bool       `json:"same"`  // pass-through: request identical to what the client sent
 	Diff    []string   `json:"diff"`  // what differed, when !Same
 	Query   string     `json:"query"` // none | connectget | other
+	URLLen  int        `json:"urllen"` // len(path) + 1 + len(raw query)
 	HErr    int        `json:"herr"`  // RPC code the faithful handler decided to answer with (0 = scripted reply)
 }
 
@@ -175,6 +177,7 @@ type observation struct {
 	Disp []dispatchObs `json:"disp"`
 	Cl   clientObs     `json:"cl"`
 	Ret  retObs        `json:"ret"`
+	MaxGet int         `json:"maxget"` // the max GET URL length the transcoder was configured with (0 = default)
 	Ref  refObs        `json:"ref"`
 	Note string        `json:"note"`
 }
